@@ -131,10 +131,12 @@ def direct_case(fails, iso, j, ai, inp, rest, o, rng, full):
     mass, flu, cd, fast, expo = inp
     env = act.ActivationEnvironment(flu, cd, fast)
     br = code_branch(ai, env, expo)
-    where = dict(isotope=str(iso), daughter=ai.daughter, reaction=ai.reaction, row=j, mass=mass, fluence=flu,
+    where = dict(isotope=str(iso), Z=iso.number, A=iso.isotope, j=j, daughter=ai.daughter, reaction=ai.reaction, row=j, mass=mass, fluence=flu,
                  Cd_ratio=cd, fast_ratio=fast, exposure=expo, rest_times=list(rest), branch=br)
     if isinstance(o, BaseException):
-        fails.add("C14:raises-%s:%s-branch" % (type(o).__name__, br),
+        sig = ("C14:small-argument-branch-raises-%s" % type(o).__name__ if br == "small"
+               else "C14:raises-%s:%s-branch" % (type(o).__name__, br))
+        fails.add(sig,
                   "activity(%s -> %s, %s) raises %s: %s" % (iso, ai.daughter, ai.reaction, type(o).__name__, o),
                   observed=repr(o), **where)
         return
@@ -148,7 +150,7 @@ def direct_case(fails, iso, j, ai, inp, rest, o, rng, full):
         return
     vals = [float(v) for v in o]
     if any(v < 0 or v != v for v in vals):
-        fails.add("C14:negative-activity:%s-branch" % br,
+        fails.add("C14:2n-cancellation-negative" if br == "2n" else "C14:negative-activity:%s-branch" % br,
                   "activity of %s -> %s (%s) is %r" % (iso, ai.daughter, ai.reaction, vals), observed=vals, **where)
     # rest decay: exactly 2^(-t/T)
     for ti, v in zip(rest, vals):
@@ -178,18 +180,23 @@ def direct_case(fails, iso, j, ai, inp, rest, o, rng, full):
     if not isinstance(o4, BaseException) and o4 is not None and vals[0] >= 0:
         lower = D(vals[0]) * (-k1 * (D(t2) - D(expo))).exp()
         if D(float(o4[0])) < lower * (1 - D(2.0 ** -30)) - D(TINY):
-            fails.add("C14:decreases-with-exposure:%s-branch" % code_branch(ai, env, t2),
+            br2 = code_branch(ai, env, t2)
+            fails.add("C14:decreases-with-exposure:%s-branch" % (br if br == br2 else br + "-to-" + br2),
                       "activity %r after %g h is below activity %r after %g h x remaining target fraction"
                       % (float(o4[0]), t2, vals[0], expo), exposure_2=t2, observed=float(o4[0]), lower_bound=str(lower), **where)
 
 
-def direct_elements(fails, rng, n):
+def direct_elements(fails, rng, n, only=None):
     """never raises on the whole isotope / natural element; natural element = abundance-weighted isotopes"""
     els = [el for el in periodictable.elements if any(hasattr(iso, "neutron_activation") for iso in el)]
+    if only:
+        els = [el for el in els if el.symbol == only["formula"]]
     for el in els:
         for _ in range(n):
             flu, expo, mass = logu(rng, 1e2, 1e16), logu(rng, 1e-3, 1e4), logu(rng, 1e-6, 1e3)
             cd, fast = rng.choice([0.0, 1.0, logu(rng, 1, 1e3)]), rng.choice([0.0, logu(rng, 1, 1e3)])
+            if only:
+                flu, expo, mass, cd, fast = (only[k] for k in ("fluence", "exposure", "mass", "Cd_ratio", "fast_ratio"))
             env = act.ActivationEnvironment(flu, cd, fast)
             rest = (0, 1, 24, 360)
             where = dict(formula=el.symbol, mass=mass, fluence=flu, Cd_ratio=cd, fast_ratio=fast, exposure=expo, rest_times=list(rest))
@@ -233,6 +240,11 @@ def main(argv):
         direct_case(fails, iso, j, ai, inp, rest, o, random.Random(0), True)
         json.dump(dict(cases=[case_term(iso, j, inp, rest, o)], meta=[describe(iso, j, ai, inp, rest, o)],
                        direct_fails=fails), sys.stdout)
+        return
+    if argv[1:2] == ["--sample"]:
+        fails = Fails()
+        direct_elements(fails, random.Random(0), 1, only=json.loads(argv[2]))
+        json.dump(dict(cases=[], meta=[], direct_fails=fails), sys.stdout)
         return
     npts, seed = int(argv[1]), int(argv[2])
     cases, meta, fails = [], [], Fails()
